@@ -118,20 +118,15 @@ impl Board {
 
 impl MoveGen {
     pub fn is_empty(&self) -> bool {
-        if let [legals, ..] = &self.moves[self.index..] {
-            return (legals.moves & self.mask).none();
-        }
-
-        true
+        self.moves[self.index..]
+            .iter()
+            .all(|legals| (legals.moves & self.mask).none())
     }
 
     pub fn len(&self) -> usize {
         let mut len = 0;
 
         for legals in &self.moves[self.index..] {
-            if (legals.moves & self.mask).none() {
-                break;
-            }
             len += (legals.moves & self.mask).count() as usize;
         }
 
@@ -190,32 +185,27 @@ impl Iterator for MoveGen {
     type Item = ChessMove;
 
     fn next(&mut self) -> Option<Self::Item> {
-        let legals = &mut self.moves[..];
-        if self.index >= legals.len() {
-            return None;
+        // entries can run out of moves in any order (`remove`, `remove_move`, a mask
+        // that hides them), so skip the exhausted ones instead of stopping at them
+        while let Some(legal) = self.moves.get_mut(self.index) {
+            let mut possible_moves = legal.moves & self.mask;
+
+            if possible_moves.none() {
+                self.index += 1;
+                continue;
+            }
+
+            let dest = unsafe { possible_moves.pop_unchecked() };
+            legal.moves.clear(dest);
+
+            return Some(ChessMove {
+                source: legal.src,
+                dest,
+                piece: legal.promotion,
+            });
         }
 
-        let legal = &mut legals[self.index];
-
-        if (legal.moves & self.mask).none() {
-            return None;
-        }
-
-        let mut possible_moves = legal.moves & self.mask;
-        let dest = unsafe { possible_moves.pop_unchecked() };
-        legal.moves.clear(dest);
-
-        let result = ChessMove {
-            source: legal.src,
-            dest,
-            piece: legal.promotion,
-        };
-
-        if possible_moves.none() {
-            self.index += 1;
-        }
-
-        Some(result)
+        None
     }
 
     fn size_hint(&self) -> (usize, Option<usize>) {
